@@ -136,7 +136,20 @@ func c14Judge(rules []*grl.Rule, flag bool, tr *hx.Trace, w *ref.World) (sig, wh
 		byName[r.Name] = r
 	}
 	last := len(tr.Cycles) - 1
+	everFailed := map[string]bool{}
 	for ci, cy := range tr.Cycles {
+		// "not a candidate IN THAT CYCLE": a rule whose condition failed earlier is evaluated again in every later cycle
+		if !flag && !(ci == last && tr.Err != nil && !hx.IsLimitErr(tr.Err)) {
+			reported := map[string]bool{}
+			for _, e := range cy.Evals {
+				reported[e.Rule] = true
+			}
+			for _, name := range cy.ActiveModel {
+				if everFailed[name] && !reported[name] {
+					return "C14:rule-dropped-after-its-condition-failed", fmt.Sprintf("cycle %d: the condition of %s failed in an earlier cycle; nobody retracted or removed the rule, yet it is not evaluated any more (reported: %v)", cy.N, name, sortedKeys(reported)), true
+				}
+			}
+		}
 		failing := map[string]bool{} // rules whose evaluation failed in this cycle (as far as evaluated)
 		for _, e := range cy.Evals {
 			faultedHere := false
@@ -165,6 +178,9 @@ func c14Judge(rules []*grl.Rule, flag bool, tr *hx.Trace, w *ref.World) (sig, wh
 					return "C14:healthy-rule-disturbed", fmt.Sprintf("cycle %d: %s evaluated without failure but reported candidate=%v while its condition is %v (fault at probe %d %s:%d)", cy.N, e.Rule, e.Cand, rr.True, faultIdx, faultKind, faultID), true
 				}
 			}
+		}
+		for k := range failing {
+			everFailed[k] = true
 		}
 		if flag {
 			// the failing rule is not reported to listeners (Execute returns first): it is the
